@@ -20,19 +20,21 @@ META = {
              'per-node container at any nesting depth (children / parents / compromised_by lists, tags, extras, ttc incl. nested '
              'arguments / operands), and every reference reachable from the copy must stay inside the copy; then 20 random '
              'mutations (C09 operations and in-place edits of ttc / tags / extras, nested ones included) are applied to one of '
-             'the two graphs while a deep structural snapshot of the OTHER is compared before / after each; non-trivial = graph '
+             'the two graphs while a deep structural snapshot of the OTHER is compared before / after each; 10% of the cases: node '
+             'extras that refer to nodes / the attacker of the same graph (itself, earlier, later, mutually) and one extras '
+             'object attached to several nodes - every graph object reachable from the copy\'s extras must be the copy\'s own; non-trivial = graph '
              'with >= 2 nodes, >= 1 edge and an attacker or analysis state; distinct = digest(case)'),
     'assumptions': ['the model and the language graph are meant to be shared (C14)'],
     'shards': {'quick': 8, 'thorough': 16},
     'quotas': {
-        'quick': {'copies-compared': 200, 'containers-compared': 9000, 'mutations-applied': 5000, 'side:copy': 2000,
+        'quick': {'class:extras-refer-to-graph-objects': 20, 'extras-references-checked': 60, 'copies-compared': 200, 'containers-compared': 9000, 'mutations-applied': 5000, 'side:copy': 2000,
                   'side:original': 2000, 'mutation:ttc-nested': 200, 'mutation:tags': 300, 'mutation:extras-nested': 80,
                   'class:highest-id-removed-before-copy': 40, 'class:copy-with-attackers': 100, 'next-ids-compared': 200, 'mutation:op:attach': 100, 'class:copied-inside-a-holder': 50},
         'thorough': {'copies-compared': 40000, 'containers-compared': 1000000, 'mutations-applied': 600000},
     },
 }
 CASES = {'quick': 1000, 'thorough': 50000}
-SECONDS = {'quick': 60, 'thorough': 600}
+SECONDS = {'quick': 300, 'thorough': 600}
 
 
 def mutables(x, path, out):
@@ -114,6 +116,84 @@ def compare_copy(g, c, res, count=True):
     return None
 
 
+def graph_objects(x, out, seen=None):
+    """AttackGraphNode / Attacker objects reachable through dicts and lists"""
+    from maltoolbox.attackgraph import AttackGraphNode, Attacker
+    if isinstance(x, (AttackGraphNode, Attacker)):
+        out.append(x)
+    elif isinstance(x, dict):
+        for v in x.values():
+            graph_objects(v, out)
+    elif isinstance(x, (list, tuple)):
+        for v in x:
+            graph_objects(v, out)
+
+
+def check_extras_refs(case, res, count=True):
+    """per-node data that refers to other nodes / attackers of the same graph ("all its internal references stay
+    inside the copy"), and one extras object attached to several nodes (no mutable per-node data shared)"""
+    import random
+    from maltoolbox.attackgraph import Attacker
+    rng = random.Random(case['seed'])
+    g, objs = agraph.build(case['start'][1])
+    if len(objs) < 2:
+        return None
+    att = Attacker(name='a', entry_points=[], reached_attack_steps=[])
+    g.add_attacker(att)
+    att.compromise(objs[0])
+    shared = {'asset-record': {'owner': 'x', 'l': [1, 2]}}
+    for n in objs:
+        r = rng.random()
+        if r < 0.3:
+            n.extras = {'see': rng.choice(objs)}                     # may be a node later or earlier in graph.nodes, or itself
+        elif r < 0.45:
+            n.extras = {'path': [rng.choice(objs) for _ in range(3)], 'by': att}
+        elif r < 0.7:
+            n.extras = shared
+    try:
+        c = copy.deepcopy(g)
+    except Exception as exc:
+        return ('deepcopy:raised-%s' % type(exc).__name__, 'copy.deepcopy raised %r (node extras refer to nodes of the graph)' % (exc,))
+    if count:
+        res.count('class:extras-refer-to-graph-objects')
+    own = {id(x) for x in c.nodes} | {id(x) for x in c.attackers}
+    orig = {id(x) for x in g.nodes} | {id(x) for x in g.attackers}
+    if len(c.nodes) != len(g.nodes) or len(c.attackers) != len(g.attackers):
+        return ('deepcopy:order-differs', 'the copy has %d nodes / %d attackers, the original %d / %d' % (len(c.nodes), len(c.attackers), len(g.nodes), len(g.attackers)))
+    for n, m in zip(g.nodes, c.nodes):
+        found, want = [], []
+        graph_objects(m.extras, found)
+        graph_objects(n.extras, want)
+        if count:
+            res.count('extras-references-checked', len(found))
+        if len(found) != len(want):
+            return ('deepcopy:extras-reference-lost', 'node %s: the extras of the copy hold %d graph objects, the original %d' % (n.full_name, len(found), len(want)))
+        for x, w in zip(found, want):
+            if id(x) in orig:
+                return ('deepcopy:reference-into-original', 'extras of copied node %s refer to an object of the original graph' % m.full_name)
+            if id(x) not in own:
+                return ('deepcopy:extras-reference-leaves-the-copy',
+                        'extras of copied node %s refer to %s %r which is neither in the copy nor in the original (a detached clone)' % (m.full_name, type(x).__name__, getattr(x, 'id', None)))
+            if x.id != w.id or type(x) is not type(w):
+                return ('deepcopy:extras-reference-to-other-object', 'extras of copied node %s refer to %s %r, the original\'s to %r' % (m.full_name, type(x).__name__, x.id, w.id))
+        if isinstance(m.extras, dict) and m.extras is n.extras and m.extras:
+            return ('deepcopy:extras-shared', 'node %s shares its extras with the original' % n.full_name)
+    for m in c.nodes:
+        if m.extras is shared or (isinstance(m.extras, dict) and m.extras.get('asset-record') is shared['asset-record']):
+            return ('deepcopy:extras-shared-nested', 'the extras object attached to several nodes is shared between copy and original')
+    f = agraph.check_invariants(c) or agraph.check_compromise_symmetry(c)
+    if f:
+        return ('deepcopy:' + f[0], 'copy: ' + f[1])
+    # later changes stay invisible
+    for m in c.nodes:
+        if isinstance(m.extras, dict) and 'asset-record' in m.extras:
+            m.extras['asset-record']['l'].append(3)
+            break
+    if shared['asset-record']['l'] != [1, 2]:
+        return ('deepcopy:mutation-visible-in-other:extras-nested', 'a change of the copy\'s extras is visible in the original')
+    return None
+
+
 def next_ids_agree(g, c, res, count=True):
     """the ids handed out next must agree (behavioural form of the counters)"""
     from maltoolbox.attackgraph import AttackGraphNode, Attacker
@@ -189,6 +269,8 @@ def mutate(rng, world, k, res, count=True):
 def _check_case(case, res, count=True):
     import random
     start = tuple(case['start'])
+    if start[0] == 'desc-refs':
+        return check_extras_refs(case, res, count)
     world = C09.World(res, False)
     if start[0] == 'desc':
         g, _ = agraph.build(start[1])
@@ -270,8 +352,10 @@ def gen_case14(rng):
     r = rng.random()
     if r < 0.6:
         start = ['case', gen_case(rng, Cfg(max_depth=2, max_assets=5), MCfg(max_assets=6, attackers=0.8), corelang_share=0.06)]
-    else:
+    elif r < 0.9:
         start = ['desc', agraph.gen_desc(rng, rng.choice([3, 5, 8, 12, 25]))]
+    else:
+        return {'start': ['desc-refs', agraph.gen_desc(rng, rng.choice([2, 3, 5, 8, 12]))], 'history': [], 'seed': rng.randrange(10 ** 9), 'holder': False}
     hist = []
     if start[0] == 'case' and rng.random() < 0.8:
         hist.append(['attach'])
